@@ -601,6 +601,11 @@ def _run_history(sh, fa, zy, rng, scratch, hidx, schemas, repo_dir, repo_root, r
         sh.count("op_" + name)
         trace.append((name, kind))
         info = {"step": step, "call": name, "kind": kind, "trace": list(trace), "args": _small(args), "schemas": {k: v[0] for k, v in schemas.items()}}
+        if ("exc", "Hang") in (here, fresh) and here != fresh:
+            # one side ran into the per-call watchdog (seconds-long generation on a recursive type, loaded
+            # machine): a wall-clock effect, not an observation of the library
+            sh.count("watchdog_on_one_side_inconclusive")
+            continue
         if not same_obs(here, fresh):
             sh.violation("result-depends-on-history",
                          "call %d (%s/%s) after %s returned %s; the same call first in a fresh interpreter returns %s"
